@@ -262,7 +262,11 @@ class Op:
         self.flags = flags or {}  # has_return_value / has_out_params / instLevel / returnClass
 
     def to_json(self):
-        d = {'name': self.name, 'py': self.py, 'kind': self.kind, 'meth': cimproto.cps(self.meth), 'post': self.post}
+        import pywbem
+        d = {'name': self.name, 'py': self.py, 'kind': self.kind, 'meth': cimproto.cps(self.meth), 'post': self.post,
+             'ns': cimproto.cps(NS), 'host': cimproto.cps('c02.invalid:5988'),
+             'reqPath': cimproto.path_to_json(pywbem.CIMInstanceName('CIM_Foo', {'k': 'v'}, namespace=NS),
+                                              cimproto.Tables())}
         d.update(self.flags)
         return d
 
